@@ -393,13 +393,13 @@ def workload(ctx):
         if no in c04.R_GROUPS:
             settings.append((no, "rhombohedral"))
     order = rng.permutation(len(settings))
-    ncif = ctx.n(60, 480)
+    ncif = ctx.n(60, 2400)
     for j in range(ncif):
         no, setting = settings[int(order[(j * max(1, ctx.nshards) + ctx.shard) % len(settings)])]
         yield "cif", {"no": no, "setting": setting, "s": int(rng.integers(0, 2 ** 31))}
     for j, (sym, no) in enumerate(PDB_SYMBOLS):
         if ctx.mine(j):
-            for rep in range(ctx.n(1, 4)):
+            for rep in range(ctx.n(1, 30)):
                 yield "pdb", {"symbol": sym, "no": no, "s": int(rng.integers(0, 2 ** 31))}
 
 
